@@ -76,6 +76,13 @@ def parse_untyped_predicate(
     :param domain_constants: the constants that are defined in the domain.
     """
     predicate_name = untyped_predicate[0]
+    predicate_arguments = untyped_predicate[1:]
+    if len(set(predicate_arguments)) != len(predicate_arguments):
+        # Signatures are keyed by the parameter name - a repeated argument would silently be dropped.
+        raise ValueError(
+            f"The literal {untyped_predicate} repeats an argument, which cannot be represented!"
+        )
+
     possible_signed_objects = {key: val for key, val in action_signature.items()}
     possible_signed_objects.update(
         {const_name: const.type for const_name, const in domain_constants.items()}
